@@ -1,6 +1,7 @@
 (* C13 - listeners fire in documented order, once each; ignore stops later stages. *)
 From Coq Require Import ZArith List Bool.
 From PyCraft Require Import Model.Dispatch Proofs.DispatchProofs.
+From PyCraft Require Model.LoopErr Proofs.LoopErrProofs.
 Import ListNotations.
 Open Scope Z_scope.
 
@@ -54,6 +55,20 @@ Theorem C13_failed_write_reaches_caller : forall subclass early_out late_out wri
   write_out subclass early_out late_out write p = (fst (run_listeners subclass early_out p), ORaised e).
 Proof. exact failed_write. Qed.
 Print Assumptions C13_failed_write_reaches_caller.
+
+(* a write that failed in a turn of the loop does not change which of the packets read in that turn are dispatched
+   (Model/LoopErr.v: read_phase_n counts the packets handed to _react) *)
+Theorem C13_failed_write_does_not_skip_dispatch : forall reads held held',
+  snd (LoopErr.read_phase_n held reads) = snd (LoopErr.read_phase_n held' reads).
+Proof. exact LoopErrProofs.dispatch_count_independent_of_write_error. Qed.
+Print Assumptions C13_failed_write_does_not_skip_dispatch.
+Theorem C13_every_readable_packet_dispatched : forall reads held,
+  forallb LoopErrProofs.quiet reads = true -> snd (LoopErr.read_phase_n held reads) = length reads.
+Proof. exact LoopErrProofs.all_dispatched_when_quiet. Qed.
+Print Assumptions C13_every_readable_packet_dispatched.
+Theorem C13_counting_turn_is_the_turn : forall reads held, fst (LoopErr.read_phase_n held reads) = LoopErr.read_phase held reads.
+Proof. exact LoopErrProofs.read_phase_n_fst. Qed.
+Print Assumptions C13_counting_turn_is_the_turn.
 
 (* histories: an ignore affects that packet only - the log of a history is the concatenation *)
 Theorem C13_histories : forall subclass early late reaction ps,
